@@ -810,10 +810,11 @@ class Item(object):
 
 
 class Ctx(object):
-    def __init__(self, rnd, tag=''):
+    def __init__(self, rnd, tag='', masked=()):
         self.rnd = rnd
         self.n = 0
         self.tag = tag
+        self.masked = frozenset(masked)
 
     def nm(self, prefix, long_ok=True):
         self.n += 1
@@ -913,6 +914,21 @@ def gen(ctx, ty, depth, env):
     raise ValueError(ty)
 
 
+def mentions(e, names):
+    if isinstance(e, tuple):
+        if len(e) == 2 and e[0] == 'id' and e[1] in names:
+            return True
+        return any(mentions(c, names) for c in e)
+    return False
+
+
+def ensure_attr(ctx, e):
+    """a domain rule must refer to SELF or an attribute (check-express PE067)"""
+    if mentions(e, ('i1', 'i2', 'r1', 'r2', 'b1', 'b2', 's1', 's2', 'li', 'ls', 'bn', 'self')):
+        return e
+    return OP(ctx.rnd.choice(['and', 'or']), OP('>=', V('i1'), I(2)), e)
+
+
 def mk_func(name, stmts, ret=INT, extra_locals=(), retval=None, params=FPARAMS):
     body = tuple(stmts)
     if retval is not False:
@@ -972,7 +988,7 @@ def place(ctx, kind, ty, e, env, host):
     if host == 'derive':
         return Item(kind, [mk_entity(ctx.nm('e'), derive=[(V(ctx.nm('d', False)), T, e)])], host)
     if host == 'where-ent':
-        return Item(kind, [mk_entity(ctx.nm('e'), wh=[(ctx.nm('wr', False), e)])], host)
+        return Item(kind, [mk_entity(ctx.nm('e'), wh=[(ctx.nm('wr', False), ensure_attr(ctx, e))])], host)
     if host == 'const':
         return Item(kind, [('constant', ctx.nm('c'), T, e)], host)
     if host == 'type-where':
@@ -1144,7 +1160,7 @@ def _k(ctx, env):
 # ---- unary
 @expr_kind('unary:-', 'int')
 def _k(ctx, env):
-    return UN('-', V('i1'))
+    return UN('-', atom(ctx, 'int', env) if env != 'none' else I(ctx.rnd.choice([2, 7, 65535])))
 
 
 @expr_kind('unary:-:literal', 'int')
@@ -1225,7 +1241,8 @@ lit_kind('lit:estr', 'str', [('estr', '00000041'), ('estr', '000000C5000000DF'),
 lit_kind('lit:bin', 'bin', [('binlit', '1010'), ('binlit', '0'), ('binlit', '1'), ('binlit', '0000111100001111')])
 lit_kind('lit:logical', 'log', [TRUE, FALSE, UNKNOWN])
 lit_kind('lit:indeterminate', 'int', [INDET], envs=('func',))
-lit_kind('lit:const-pi', 'real', [V('pi'), V('const_e'), OP('*', I(2), V('pi'))])
+lit_kind('lit:const-pi', 'real', [V('pi'), OP('*', I(2), V('pi'))])
+lit_kind('lit:const-e', 'real', [V('const_e'), OP('*', RL(2.5), V('const_e'))])
 
 
 def _longstr(ctx, dots, apos, n=None):
@@ -1239,6 +1256,15 @@ def _longstr(ctx, dots, apos, n=None):
         words.append(w)
     sep = '.' if dots else r.choice([' ', '_', ' '])
     return S(sep.join(words))
+
+
+lit_kind('lit:str-dots', 'str', [S('a.b'), S('x.y.z'), S('SCHEMA.ENTITY'), S('.'), S('..'), S('end.')])
+
+
+@expr_kind('lit:str-dots-in-op', 'bool')
+def _k(ctx, env):
+    return ctx.rnd.choice([OP('=', atom(ctx, 'str', env), S('aa.bb.cc')), OP('like', S('ab.cd.ef'), S('ab.*')),
+                           OP('in', S('S.E'), ('agg', ((S('S.E'), None), (S('S.F'), None))))])
 
 
 lit_kind('lit:str-long', 'str', [lambda c: _longstr(c, False, False)])
@@ -1360,7 +1386,7 @@ def _k(ctx, env):
 
 @expr_kind('call:builtin-bool', 'bool', envs=('func', 'ent'))
 def _k(ctx, env):
-    return ctx.rnd.choice([CALL('exists', V('i1')), CALL('odd', V('i2')), OP('in', S('X.Y'), CALL('typeof', V('i1')))])
+    return ctx.rnd.choice([CALL('exists', V('i1')), CALL('odd', V('i2')), OP('in', S('XY'), CALL('typeof', V('i1')))])
 
 
 @kind('call:user')
@@ -1554,14 +1580,14 @@ def _k(ctx):
 
 @stmt_kind('stmt:case-expr-label')
 def _k(ctx):
-    acts = (((OP('+', V('i2'), I(2)),), A(ctx)), ((UN('-', I(3)),), A(ctx)))
+    acts = (((OP('+', V('i2'), I(2)),), A(ctx)), ((OP('*', V('i2'), I(3)),), A(ctx)))
     return [('case', V('i1'), acts, None)]
 
 
-@stmt_kind('stmt:case-string-label')
+@stmt_kind('stmt:case-negative-label')
 def _k(ctx):
-    acts = (((S('abc'),), A(ctx)), ((S('de f'),), A(ctx)))
-    return [('case', V('s1'), acts, ('null',))]
+    acts = (((UN('-', I(3)),), A(ctx)), ((I(4),), A(ctx)))
+    return [('case', V('i1'), acts, None)]
 
 
 @stmt_kind('stmt:case-compound-action')
@@ -1963,7 +1989,7 @@ def _k(ctx):
 
 
 def _wh(ctx, name, labels):
-    wh = [(ctx.nm('wr', False) if lab else None, gen(ctx, 'bool', 2, 'ent')) for lab in labels]
+    wh = [(ctx.nm('wr', False) if lab else None, ensure_attr(ctx, gen(ctx, 'bool', 2, 'ent'))) for lab in labels]
     return Item(name, [mk_entity(ctx.nm('e'), wh=wh)], 'entity')
 
 
@@ -1984,7 +2010,7 @@ def _k(ctx):
 
 @kind('entity:where-long-label')
 def _k(ctx):
-    wh = [('wr_' + 'x' * ctx.rnd.choice([12, 30]), gen(ctx, 'bool', 2, 'ent')), ('w', gen(ctx, 'bool', 1, 'ent'))]
+    wh = [('wr_' + 'x' * ctx.rnd.choice([12, 30]), ensure_attr(ctx, gen(ctx, 'bool', 2, 'ent'))), ('w', ensure_attr(ctx, gen(ctx, 'bool', 1, 'ent')))]
     return Item('entity:where-long-label', [mk_entity(ctx.nm('e'), wh=wh)], 'entity')
 
 
@@ -2017,12 +2043,25 @@ def _k(ctx):
 
 @kind('entity:supertype-nested')
 def _k(ctx):
-    forms = [lambda s: OP('andor', ('oneof', (s[0], s[1])), OP('and', s[2], s[3])),
+    forms = [lambda s: OP('andor', ('oneof', (s[0], s[1])), ('oneof', (s[2], s[3]))),
              lambda s: OP('and', ('oneof', (s[0], s[1])), ('oneof', (s[2], s[3]))),
              lambda s: ('oneof', (s[0], OP('and', s[1], s[2]), s[3])),
-             lambda s: OP('and', OP('andor', s[0], s[1]), OP('andor', s[2], s[3])),
-             lambda s: OP('andor', s[0], OP('andor', s[1], OP('and', s[2], s[3])))]
+             lambda s: ('oneof', (s[0], ('oneof', (s[1], s[2])), s[3])),
+             lambda s: OP('and', OP('andor', s[0], s[1]), OP('andor', s[2], s[3]))]
     return _super(ctx, 'entity:supertype-nested', ctx.rnd.choice(forms), abstract=ctx.rnd.random() < 0.4)
+
+
+# ISO 10303-11: AND binds tighter than ANDOR
+@kind('entity:supertype-and-under-andor')
+def _k(ctx):
+    forms = [lambda s: OP('andor', s[0], OP('and', s[1], s[2])), lambda s: OP('andor', OP('andor', s[0], s[1]), OP('and', s[2], s[3]))]
+    return _super(ctx, 'entity:supertype-and-under-andor', ctx.rnd.choice(forms))
+
+
+@kind('entity:supertype-right-nested')
+def _k(ctx):
+    o = ctx.rnd.choice(['and', 'andor'])
+    return _super(ctx, 'entity:supertype-right-nested', lambda s: OP(o, s[0], OP(o, s[1], s[2])))
 
 
 @kind('entity:abstract')
@@ -2259,14 +2298,35 @@ class Schema(object):
         return '\n'.join(out) + '\n'
 
 
-def make_item(kind_name, rnd, tag=''):
-    return KINDS[kind_name][0](Ctx(rnd, tag))
+ASSOC_PRINTED = ('+', '*', 'and', 'or', 'xor', '=', '||', 'andor')
+
+
+def sanitize(t, masked):
+    """rewrite the sub-shapes named by masked kinds that the random expression generator may produce by chance"""
+    if not isinstance(t, tuple):
+        return t
+    t = tuple(sanitize(c, masked) for c in t)
+    while (len(t) == 4 and t[0] == 'op' and t[1] in ASSOC_PRINTED and isinstance(t[3], tuple) and len(t[3]) == 4
+           and t[3][0] == 'op' and t[3][1] == t[1] and ('expr:right-nested:' + t[1] in masked or
+                                                       (t[1] == '+' and 'expr:right-nested:str+' in masked))):
+        t = ('op', t[1], sanitize(('op', t[1], t[2], t[3][2]), masked), t[3][3])
+    return t
+
+
+def finish_item(it, masked):
+    if masked and not it.kind.startswith(('expr:right-nested', 'entity:supertype-right-nested')):
+        it.decls = [sanitize(d, masked) for d in it.decls]
+    return it
+
+
+def make_item(kind_name, rnd, tag='', masked=()):
+    return finish_item(KINDS[kind_name][0](Ctx(rnd, tag, masked)), masked)
 
 
 def random_schema(rnd, name, n_items, masked=()):
     """n_items items of random kinds outside `masked` (a set of kind names with an open finding)"""
     pool = [(k, w) for k, (f, w) in sorted(KINDS.items()) if k not in masked]
-    ctx = Ctx(rnd)
+    ctx = Ctx(rnd, masked=masked)
     items = []
     lib_used = False
     tries = 0
@@ -2277,7 +2337,7 @@ def random_schema(rnd, name, n_items, masked=()):
             if lib_used:
                 continue
             lib_used = True
-        items.append(KINDS[k][0](ctx))
+        items.append(finish_item(KINDS[k][0](ctx), masked))
     return Schema(name, items, Style(random.Random(rnd.random())))
 
 
